@@ -5,6 +5,7 @@ package swamp
 import (
 	"time"
 
+	"github.com/hydraide/hydraide/app/core/hydra/swamp/chronicler"
 	"github.com/hydraide/hydraide/app/core/hydra/swamp/metadata"
 	"github.com/hydraide/hydraide/app/name"
 	"github.com/hydraide/hydraide/app/verifrt"
@@ -285,6 +286,96 @@ func VerifC07Index(h *verifrt.H) {
 				h.Assert(got[j].GetKey() != t.GetKey(), "index-page-no-duplicates")
 			}
 		}
+	}
+	h.Cover("end")
+}
+
+// ---------- persistent swamps (real chronicler V2 on the file-system model) ----------
+
+func vfPersist(h *verifrt.H, dir string, wi time.Duration, closed *int) Swamp {
+	n := name.New().Sanctuary("s").Realm("r").Swamp("w")
+	chr := chronicler.NewV2WithName(dir, 2, n.Get())
+	chr.CreateDirectoryIfNotExists()
+	return New(n, time.Hour, &FilesystemSettings{ChroniclerInterface: chr, WriteInterval: wi}, func(*Event) {}, func(*Info) {}, func(name.Name) {
+		if closed != nil {
+			*closed++
+		}
+	}, metadata.NewNoop())
+}
+
+type c05snap struct {
+	exists  bool
+	val     int64
+	expiry  int64
+	created int64
+}
+
+func c05take(s Swamp, key string) c05snap {
+	t, err := s.GetTreasure(key)
+	if err != nil {
+		return c05snap{}
+	}
+	v, _ := t.GetContentInt64()
+	return c05snap{exists: true, val: v, expiry: t.GetExpirationTime(), created: t.GetCreatedAt()}
+}
+
+// VerifC05History: a persistent swamp (real chronicler V2, real file format, gob contract model)
+// goes through sessions: in every session up to maxOps operations (set value+expiry, set the
+// identical value with a new expiry, delete) on two keys with symbolic non-zero values, then the
+// swamp closes and is summoned again from its file: every key has the same existence, value and
+// created/expiry metadata as before the close.
+func VerifC05History(h *verifrt.H) {
+	h.BackgroundLowPriority(true)
+	dir := h.TempDir() + "/sw"
+	wi := time.Duration(h.Choose("immediateWrite", 2)) * time.Second // 0 = immediate-write mode
+	keys := []string{"a", "b"}
+	sessions := h.Param("sessions", 2)
+	for se := 0; se < sessions; se++ {
+		s := vfPersist(h, dir, time.Second-wi, nil)
+		if se > 0 {
+			h.Cover("reloaded")
+		}
+		nOps := h.Len("ops", 0, h.Param("maxOps", 2))
+		for i := 0; i < nOps; i++ {
+			k := keys[h.Choose("key", 2)]
+			switch h.Choose("op", 3) {
+			case 0, 1: // set (1: keep the current value, move only the expiry)
+				t := s.CreateTreasure(k)
+				g := t.StartTreasureGuard(true)
+				v := h.Int64("value")
+				h.Assume(v != 0) // typed zero values are the known finding of VerifC05Reload
+				if cur, err := t.GetContentInt64(); err == nil && h.Choose("sameValue", 2) == 1 {
+					v = cur
+				}
+				t.SetContentInt64(g, v)
+				e := h.Int64("expiry")
+				t.SetExpirationTime(g, time.Unix(0, e).UTC())
+				t.Save(g)
+				t.ReleaseTreasureGuard(g)
+			case 2:
+				_ = s.DeleteTreasure(k, false)
+			}
+		}
+		var before [2]c05snap
+		for i, k := range keys {
+			before[i] = c05take(s, k)
+		}
+		if s.IsClosing() {
+			// the last delete emptied and destroyed the swamp: nothing may come back
+			before = [2]c05snap{}
+		} else {
+			s.Close()
+		}
+		r := vfPersist(h, dir, time.Second, nil)
+		for i, k := range keys {
+			after := c05take(r, k)
+			h.Assert(after.exists == before[i].exists, "reload-same-existence")
+			if after.exists && before[i].exists {
+				h.Assert(after.val == before[i].val, "reload-same-value")
+				h.Assert(after.expiry == before[i].expiry && after.created == before[i].created, "reload-same-metadata")
+			}
+		}
+		r.Close()
 	}
 	h.Cover("end")
 }
